@@ -56,6 +56,9 @@ TABLE = {
   "C19": ("Lean 4 exact-rational model of the search acquisition (unit/search maps, clamped expanded distance, strict-radius zeroing, batching, repulsor loop) + differential correspondence with ProbabilityOfImprovementSearch, the helper maps and recorded search_strategy_optimization runs",
           "Proved for all domains, repulsor sets, radii, points, batch sizes, optimisers and redrawn radii: value in [0,1], exactly 0 iff some repulsor is strictly inside the radius and otherwise p; the expanded clamped distance is the squared Euclidean distance; both unit-cube round trips; in-box coordinates in [0,1]; distance decomposition with >= 2t^2 (hence >= sqrt(one-hot dim)) between differing categories; batch independence; each pick becomes a repulsor before the next, radius redrawn, function restored.",
           "The success probability is an input (C05). IEEE rounding absorbed by a boundary margin eta=(4d+48)eps(|u|^2+|w|^2); strictness checked exactly on a dyadic family. t = numpy.sqrt(one_hot_dim) is a parameter (d <= 2t^2 checked per case).", "3/C19"),
+  "C17": ("Lean 4 proof over Mathlib Matrix plus an exact Rat-list executable model (third-party cholesky/svd/qr as oracles with contracts); bridge theorems list arithmetic = Matrix arithmetic",
+          "Proved for all sizes and ranks: the SVD+QR fallback algebra yields L L^T = Sigma (Cholesky branch by contract); the model of compute_cholesky_for_gp_sampling incl. the overwrite flag reproduces Sigma exactly when the contracts hold and the buffer is intact (and a counter-model shows the buffer hypothesis cannot be dropped); exact residual error budget identity; Cov(m+Lz) = L L^T; GP sum covariance = sum w_i^2 Sigma_i. Tied each run by the exact rational max|L L^T - Sigma| against the untouched original, a recorded scipy trace replayed by the model, and every contract evaluated exactly.",
+          "Not modelled: IEEE rounding, normality and sample moments (labelled statistical tests), U E U^T = Sigma is a hypothesis evaluated per run.", "3/C17"),
 }
 
 
